@@ -821,7 +821,7 @@ func c12Corpus() []c12Doc {
 		{[]c12Ev{A("a"), T("a")}, "array-then-table"},
 		{[]c12Ev{T("a"), A("a")}, "table-then-array"},
 		{[]c12Ev{K(arr(), "a"), A("a")}, "static-array-then-array-table"},
-		{[]c12Ev{K(arr(inl()), "a"), T("a", "b")}, "toml-lenient-static-array-extended"},
+		{[]c12Ev{K(arr(inl()), "a"), T("a", "b")}, "static-array-extended"},
 		{[]c12Ev{T("a", "b"), A("a")}, "super-array-after-sub-table"},
 		{[]c12Ev{A("a", "b"), A("a")}, "super-array-after-sub-array"},
 		{[]c12Ev{A("a", "b"), A("a"), A("a")}, "toml-decoder-panic-stale-array-pointer"},
@@ -908,7 +908,6 @@ var c12LenientClasses = map[string]bool{
 	"toml-lenient-header-reopens-dotted-table":     true,
 	"toml-lenient-dotted-key-extends-header-table": true,
 	"toml-lenient-inline-table-extended":           true,
-	"toml-lenient-static-array-extended":           true,
 	"toml-lenient-array-element-key-reuse":         true,
 }
 
